@@ -78,6 +78,7 @@ class Sched:
         self.fine = None
         self.fine_p = 0.15
         self.fine_files = ("subscription.py", "server.py")
+        self.fine_server_factor = 0.25      # server.py has many more (mostly thread-local) lines than subscription.py
 
     def tracer(self, frame, event, arg):
         """sys.settrace hook of fine-grained mode: line-level preemption inside the library's own files (used to
@@ -86,8 +87,10 @@ class Sched:
         if not fn.endswith(self.fine_files) or "lightstreamer_adapter" not in fn:
             return None
 
+        p_here = self.fine_p if fn.endswith("subscription.py") else self.fine_p * self.fine_server_factor
+
         def local(frame, event, arg):
-            if event == "line" and not self.aborting and self.fine.random() < self.fine_p:
+            if event == "line" and not self.aborting and self.fine.random() < p_here:
                 me = self.current
                 if me is not None and not me.meta.get("no_preempt"):
                     self.park(("line", frame.f_code.co_name, frame.f_lineno))
